@@ -3,6 +3,7 @@
 # 1. confirms in a scratch worktree that the change compiles, the suite passes, the demo fails with it and passes without;
 # 2. applies it to /repo, runs the listed checks (quick), reverts; writes /verif/seeded/<name>/{patch.diff,demo_test.go,meta.json}
 set -u
+V="$(cd "$(dirname "$0")/.." && pwd)"
 NAME="$1"; DIFF="$2"; DEMO="$3"; DDIR="$4"; shift 4
 export GOFLAGS=-mod=mod GOPROXY=off GOSUMDB=off GOTOOLCHAIN=local
 WT=/tmp/wt/verify-$NAME
@@ -23,7 +24,7 @@ if git apply "$DIFF" 2>/tmp/wt/$NAME.apply.log; then R_APPLY=ok
   cp "$DEMO" "$DDIR/zz_seed_demo_test.go"
   if timeout 900 go test $RACEFLAG -vet=off -count=1 -run "^$DT\$" ./$DDIR >/tmp/wt/$NAME.with.log 2>&1; then R_DEMO_WITH=pass; else R_DEMO_WITH=fail; fi
 fi
-cd /verif
+cd "$V"
 git -C /repo worktree remove --force "$WT" >/dev/null 2>&1
 CHK="{}"
 if [ "$R_APPLY" = ok ]; then
